@@ -36,6 +36,7 @@ struct Value {
     opcodetype opcode{OP_INVALIDOPCODE};
     std::vector<uint8_t> data;
     std::string str;
+    inline static size_t parse_nesting = 0; // current depth of [sub-script] parsing
     static std::vector<Value> parse_args(const std::vector<const char*> args) {
         std::vector<Value> result;
         std::string accum = "";
@@ -78,8 +79,15 @@ struct Value {
     }
     static std::vector<Value> parse_args(const char* args_string, size_t args_len = 0) {
         if (args_len == 0) args_len = strlen(args_string);
+        // bracketed sub-scripts are parsed recursively: bound the depth (and keep the frames small: no arrays sized
+        // by the input on the stack), so that deeply nested input gets a diagnostic, not a stack overflow
+        struct NestingGuard { size_t& n; NestingGuard(size_t& n_in) : n(n_in) { ++n; } ~NestingGuard() { --n; } } nesting_guard(parse_nesting);
+        if (parse_nesting > 256) {
+            fprintf(stderr, "parse error, [sub-scripts] nested more than 256 levels deep\n");
+            exit(1);
+        }
         std::vector<const char*> args;
-        char* args_ptr[args_len];
+        std::vector<char*> args_ptr(args_len + 1);
         size_t arg_idx = 0;
         size_t start = 0;
         for (size_t i = 0; i <= args_len; i++) {
